@@ -57,6 +57,9 @@ CHECKS = {
  'C17': ('Hypothesis-generated region structures / potentials / damping vs an independent dual solver (L-BFGS+BFGS) of the convexified free energy on an independently built region closure; metamorphic re-listing of cliques for non-converging runs',
          'Generated-input search; conditional on the convergence the statement presupposes (primal feasibility <= 1e-9*total within 20000 sweeps, ~99% of cases on the current tree; the rest are inconclusive unless the alphabetically re-listed problem converges, which is a violation).',
          'Trusts the dual solver only when its gradient norm is < 1e-8 (otherwise inconclusive).'),
+ 'C19': ('Hypothesis-generated public datasets / measurement sets / totals vs validity predicate on the weights, C09 reference total, and loss recomputed from weighted contingency tables (metamorphic: never worse than uniform weights)',
+         'Generated-input search with a fresh PublicInference per case; includes degenerate shapes (single-cell projections, exact-fit starts, conflicting answers, a clique measured twice with different noise) that drive the line search to its corner cases.',
+         'Loss comparison tolerance 1e-9 relative + 1e-9 x loss of the all-zero table; estimated totals compared with the pinv reference at 1e-6.'),
 }
 NOT_YET = 'check not built yet (work in progress in this session); see DESIGN.md for the planned check'
 
